@@ -24,6 +24,7 @@
 #[allow(dead_code)]
 #[path = "/repo/crates/sierradb-cluster/src/circuit_breaker.rs"]
 mod circuit_breaker;
+mod verif_atomics;
 
 use std::collections::{BTreeMap, HashMap};
 use std::sync::Mutex;
@@ -245,6 +246,7 @@ struct Rec {
 static GHOST: StdU64 = StdU64::new(0);
 static LOG: Mutex<Vec<Rec>> = Mutex::new(Vec::new());
 static EXECS: StdU64 = StdU64::new(0);
+static DISCARDED: StdU64 = StdU64::new(0);
 static OPS: StdU64 = StdU64::new(0);
 static FOUND: Mutex<Option<(String, String, Value)>> = Mutex::new(None);
 static IN_MODEL: AtomicBool = AtomicBool::new(false);
@@ -453,6 +455,7 @@ fn run_model(sc: &Scenario, max: Duration) -> ModelResult {
             EXECS.fetch_add(1, StdOrd::Relaxed);
             GHOST.store(0, StdOrd::Relaxed);
             LOG.lock().unwrap().clear();
+            verif_atomics::reset_execution();
             let (cb, pre) = build(&sc2);
             let cb = loom::sync::Arc::new(cb);
             let mut hs = Vec::new();
@@ -470,6 +473,11 @@ fn run_model(sc: &Scenario, max: Duration) -> ModelResult {
             }
             for h in hs {
                 h.join().unwrap();
+            }
+            if verif_atomics::execution_is_infeasible() {
+                // loom let two successful read-modify-writes read the same write (see verif_atomics.rs)
+                DISCARDED.fetch_add(1, StdOrd::Relaxed);
+                return;
             }
             evaluate(&sc2, &cb, pre);
         })
@@ -550,6 +558,7 @@ fn sequential_batch(cfg: Cfg, start: Start, seqs: Vec<Vec<Op>>, out: &mut Worker
 /// One single-threaded sequence with exact episode accounting (state is observed after every op).
 fn sequential_one(sc: &Scenario) -> Option<(String, String)> {
     CLOCK.store(CLOCK_START, loom::sync::atomic::Ordering::SeqCst);
+    verif_atomics::reset_execution();
     let mut found = None;
     let (cb, pre) = build(sc);
     let c = sc.cfg;
@@ -656,7 +665,9 @@ fn run_case_inner(c: &Case, tier: Tier, out: &mut WorkerOut) {
     match c {
         Case::Seq(cfg, start, d, prefix) => sequential_batch(*cfg, *start, seqs_of(*d, prefix), out),
         Case::Conc(sc) => {
+            let d0 = DISCARDED.load(StdOrd::Relaxed);
             let r = run_model(sc, per_model_cap(tier));
+            out.count("executions_discarded_as_infeasible", DISCARDED.load(StdOrd::Relaxed) - d0);
             out.evals += r.execs;
             out.count(&format!("schedules[{} bound={}]", sc.shape(), sc.bound.map(|b| b.to_string()).unwrap_or("none".into())), r.execs);
             out.count(&format!("models[{} bound={}]", sc.shape(), sc.bound.map(|b| b.to_string()).unwrap_or("none".into())), 1);
@@ -730,12 +741,13 @@ fn main() {
         },
         "schedules_per_shape": m.counters.iter().filter(|(k, _)| k.starts_with("schedules[")).map(|(k, v)| json!({"shape": k, "schedules": v})).collect::<Vec<_>>(),
         "distinct_outcomes": m.outcomes.len(),
+        "executions_discarded_as_infeasible": m.counters.get("executions_discarded_as_infeasible").copied().unwrap_or(0),
         "worker_deaths": m.worker_deaths,
     });
     ctx.finish(
         coverage,
         vec![
-            "loom models the C11 memory model for the orderings the file uses (Acquire/Release/AcqRel); SeqCst fences are not used by the file".into(),
+            "loom models the C11 memory model for the orderings the file uses (Acquire/Release/AcqRel); executions in which loom lets two successful read-modify-writes read the same write (impossible under C11, see verif_atomics.rs) are recognised through tagged writes and discarded, their number is reported".into(),
             "the clock is logical: millisecond granularity effects are represented by timeouts of 0, 2 and 1000 ticks".into(),
             "preemption-bounded shapes are exhaustive only up to the stated bound".into(),
         ],
@@ -743,6 +755,9 @@ fn main() {
 }
 
 fn replay(path: &std::path::Path, tier: Tier) -> ! {
+    if std::env::var("CBLOOM_LOG").is_ok() {
+        let _ = tracing_subscriber::fmt().with_max_level(tracing::Level::TRACE).with_writer(std::io::stderr).without_time().try_init();
+    }
     let case = vcommon::load_replay(path);
     let case = if case.get("died").is_some() { case["case"].clone() } else { case };
     let sc = Scenario::from_json(&case["scenario"]);
